@@ -1,6 +1,7 @@
 import Hgxv.Model.C20
-/-! Instantiations of the parameter `cent` used by the C20 driver (core Lean only; NO theorem depends on
-this file - the theorems hold for every `cent`):
+/-! Instantiations of the parameter `cent` used by the C20 driver (core Lean only). The parametric theorems hold for
+every `cent`; since the extension round `closeness` and `betweenness` are also the SUBJECT of theorems
+(`Proofs/C20Cent*.lean`, `C20_dist_spec` ... `C20_nx_relabel` in `Props/C20.lean`):
 
 * `stubCent`     an arbitrary, vertex- and graph-dependent value; the harness installs the same function in
                  place of the networkx routines, so the glue is compared exactly;
